@@ -419,7 +419,11 @@ func c01run(r *report.Run) {
 		}
 	}
 	addCorpus(corpusC06(3, 2))
-	addCorpus(corpusC08(3))
+	if thorough {
+		addCorpus(corpusC08(4))
+	} else {
+		addCorpus(corpusC08(3))
+	}
 	addCorpus(corpusC11(2, 2))
 	addCorpus(corpusC12(12))
 	cfgs := c9configs(false)
